@@ -320,6 +320,43 @@ class CFG(object):
             self._cdep = cdep
         return self._cdep
 
+    def dominating_guards(self, n):
+        """(cond node, outcome) pairs that *guard* n: the cond dominates n and n is reachable from that outcome's successor only
+        (every path from the cond to n that does not pass the cond again starts with that edge)."""
+        cache = self.__dict__.setdefault("_domguards", {})
+        if n in cache:
+            return cache[n]
+        idom = self.dominators()
+        out = []
+        cur = n
+        seen = set()
+        while cur in idom and cur not in seen:
+            seen.add(cur)
+            nxt = idom[cur]
+            if nxt == cur:
+                break
+            cur = nxt
+            if self.kind(cur) != "cond":
+                continue
+            reach = {}
+            for m in self.g.successors(cur):
+                e = self.g[cur][m]
+                if e["kind"] == "exc":
+                    continue
+                lab = e.get("label")
+                ok = (m == n) or self.path_avoiding(m, n, [cur]) is not None
+                if lab == "both":
+                    reach[True] = reach.get(True, False) or ok
+                    reach[False] = reach.get(False, False) or ok
+                else:
+                    reach[lab] = reach.get(lab, False) or ok
+            if reach.get(True) and not reach.get(False):
+                out.append((cur, True))
+            elif reach.get(False) and not reach.get(True):
+                out.append((cur, False))
+        cache[n] = out
+        return out
+
     def control_closure(self, n):
         """All (branch node, label) pairs n is transitively control dependent on."""
         cdep = self.control_deps()
